@@ -18,11 +18,11 @@ theorem kindB {e : BoolE} {t : OTree} {k : OKind} (h : saVisit fields core e.toE
   okB_ok (by rw [← h]; exact okB_B fields core e)
 
 /-- a comparison of two non-list operands, when it is built -/
-theorem compare_inv {k : CmpK} {l r : Expr} {t : OTree} {kd : OKind}
+theorem compare_inv {k : CmpK} {l r : Expr} {t : OTree} {kd : OKind} (hn : isNullLit l = false)
     (h : saVisit fields core (.compare k.toOp l r) = .ok (t, kd)) :
     ∃ a ka b kb, saVisit fields core l = .ok (a, ka) ∧ saVisit fields core r = .ok (b, kb) ∧
       (ka ≠ .list → kb ≠ .list → t = on2 (cmpLookup k.toOp) a b) := by
-  rw [visit_compare] at h
+  rw [visit_compare _ _ _ _ _ hn] at h
   obtain ⟨⟨a, ka⟩, ha, h⟩ := bind_ok_inv h
   obtain ⟨⟨b, kb⟩, hb, h⟩ := bind_ok_inv h
   refine ⟨a, ka, b, kb, ha, hb, ?_⟩
@@ -37,7 +37,7 @@ theorem visit_isNull (kind : ColK) (c : Str) (negated : Bool) :
     saVisit fields core (BoolE.isNull kind c negated).toExpr =
       if fields.contains c then .ok (on2 (if negated then "ne" else "exact") (.col [c]) (.const "NULL"), .cond)
       else .lib (.invalidField c) := by
-  rw [BoolE.toExpr, visit_compare, visit_id, visit_nullLit]
+  rw [BoolE.toExpr, visit_compare _ _ _ _ _ rfl, visit_id, visit_nullLit]
   cases negated <;> split <;> rfl
 
 theorem visit_boolLit' (b : Bool) :
@@ -242,7 +242,7 @@ theorem in_inv {l : Expr} {xs : Exprs} {t : OTree} {kd : OKind}
     (h : saVisit fields core (.compare .in_ l (.list xs)) = .ok (t, kd)) :
     ∃ a ka items, saVisit fields core l = .ok (a, ka) ∧ saVisitList fields core xs = .ok items ∧
       (ka ≠ .list → t = on2 "in" a (.node "list" (OTrees.ofList items))) := by
-  rw [visit_compare, visit_list] at h
+  rw [visit_compare_in, visit_list] at h
   obtain ⟨⟨a, ka⟩, ha, h⟩ := bind_ok_inv h
   obtain ⟨⟨b, kb⟩, hb, h⟩ := bind_ok_inv h
   obtain ⟨items, hi, hb⟩ := bind_ok_inv hb
@@ -258,7 +258,7 @@ theorem soundB : (b : BoolE) → (t : OTree) → (kd : OKind) → (s : SqlTree) 
       simp only [C01.wfB, Bool.and_eq_true] at hw
       simp only [semOkB, Bool.and_eq_true] at hs
       rw [BoolE.toExpr] at hb
-      obtain ⟨a, ka, b, kb, ha, hb', ht⟩ := compare_inv fields core hb
+      obtain ⟨a, ka, b, kb, ha, hb', ht⟩ := compare_inv fields core (C01.isNullLit_I l) hb
       obtain ⟨hka, hca⟩ := kindI fields core ha
       obtain ⟨hkb, hcb⟩ := kindI fields core hb'
       rw [ht hka hkb, saSql_cmp k a b (isNullConst_of_not_const hca) (isNullConst_of_not_const hcb)] at hq
@@ -273,7 +273,7 @@ theorem soundB : (b : BoolE) → (t : OTree) → (kd : OKind) → (s : SqlTree) 
       simp only [C01.wfB, Bool.and_eq_true] at hw
       simp only [semOkB, Bool.and_eq_true] at hs
       rw [BoolE.toExpr] at hb
-      obtain ⟨a, ka, b, kb, ha, hb', ht⟩ := compare_inv fields core hb
+      obtain ⟨a, ka, b, kb, ha, hb', ht⟩ := compare_inv fields core (C01.isNullLit_S l) hb
       obtain ⟨hka, hca⟩ := kindS fields core ha
       obtain ⟨hkb, hcb⟩ := kindS fields core hb'
       rw [ht hka hkb, saSql_cmp k a b (isNullConst_of_not_const hca) (isNullConst_of_not_const hcb)] at hq
@@ -288,7 +288,7 @@ theorem soundB : (b : BoolE) → (t : OTree) → (kd : OKind) → (s : SqlTree) 
       simp only [C01.wfB, Bool.and_eq_true] at hw
       simp only [semOkB, Bool.and_eq_true] at hs
       rw [BoolE.toExpr] at hb
-      obtain ⟨a, ka, b, kb, ha, hb', ht⟩ := compare_inv fields core hb
+      obtain ⟨a, ka, b, kb, ha, hb', ht⟩ := compare_inv fields core (C01.isNullLit_B l) hb
       obtain ⟨hka, hca⟩ := kindB fields core ha
       obtain ⟨hkb, hcb⟩ := kindB fields core hb'
       rw [ht hka hkb, saSql_cmp k a b hca hcb] at hq
@@ -444,12 +444,12 @@ end Sound
 section Fwd
 variable (fields : List Str) (core : Bool)
 
-theorem compare_fwd (k : CmpK) {l r : Expr} {a b : OTree} {ka kb : OKind}
+theorem compare_fwd (k : CmpK) {l r : Expr} {a b : OTree} {ka kb : OKind} (hn : isNullLit l = false)
     (ha : saVisit fields core l = .ok (a, ka)) (hb : saVisit fields core r = .ok (b, kb))
     (hka : ka ≠ .list) (hkb : kb ≠ .list)
     (h : ((k.toOp == .lt || k.toOp == .le || k.toOp == .gt || k.toOp == .ge) && (isConstT a || isConstT b)) = false) :
     saVisit fields core (.compare k.toOp l r) = .ok (on2 (cmpLookup k.toOp) a b, .cond) := by
-  rw [visit_compare, ha, hb]
+  rw [visit_compare _ _ _ _ _ hn, ha, hb]
   simp only [Outcome.bind_ok, toOp_in, Bool.false_eq_true, if_false]
   rw [if_neg (by simp [hka, hkb]), h]
   rfl
